@@ -330,7 +330,7 @@ def load_findings(prop):
 def write_replay(prop, payload):
     d = os.path.join(VERIF, "replays")
     os.makedirs(d, exist_ok=True)
-    blob = json.dumps(payload, sort_keys=True, indent=1, default=repr)
+    blob = json.dumps(payload, indent=1, default=repr)   # insertion order kept: dict order can matter
     h = hashlib.sha256(blob.encode()).hexdigest()[:12]
     path = os.path.join(d, "%s-%s.json" % (prop, h))
     with open(path, "w") as f:
